@@ -393,9 +393,9 @@ def _corpus():
 
 def run(run, tier, seed, replay=None):
     quick = tier == "quick"
-    nbase = 120 if quick else 1400
-    nbbase = 70 if quick else 800
-    per_class = 1 if quick else 4
+    nbase = 120 if quick else 500
+    nbbase = 70 if quick else 300
+    per_class = 1 if quick else 2
     if replay is not None:
         kind = "bdesign" if replay.get("stream") == "bundle-mutants" else "design"
         meta = [dict(cls=replay.get("cls", "?"), top=True)]
